@@ -174,7 +174,10 @@ def components(ctx):
              "forms / Unix paths of length 1..107 resolved, printed and resolved again, generated JSON objects "
              "(nesting <= 4, escapes, \\u, whitespace at every gap, duplicate and prefix keys) with json_find and "
              "skip_value; plus systematic cases covering every byte value; non-trivial = at least 3 ops",
-        classify=classify, env={"HPARSERS_TMP": ctx.tmp})]
+        classify=classify, env={"HPARSERS_TMP": ctx.tmp},
+        # black-box fallback (h_parsers.c -DHC_BLACKBOX): json.c compiled separately, the ops that call its static skip_value
+        # are stripped from the cases (every op of this harness is an independent call)
+        bb_ok=True, bb_srcs=["util/json.c"], bb_strip_ops=("skipv", "skipvv"))]
 
 
 def check(ctx):
